@@ -213,6 +213,9 @@ impl Xerr {
 //@use corewords.fns State::load_core#w_foreach
 //@use corewords.fns State::load_core#w_include
 //@use corewords.fns State::load_core#w_require
+//@use corewords.fns State::load_core#w_fmt_slashprefix
+//@use corewords.fns State::load_core#w_fmt_slashtags
+//@use corewords.fns State::load_core#w_fmt_slashupcase
 
 // ---- `let`: run-time helper words it compiles calls of (named only), the emitter of a native call, a tag-key constant
 #[verifier::external_body] fn core_word_tags(xs: &mut State) -> Xresult { unimplemented!() }
@@ -281,6 +284,12 @@ impl State {
 #[verifier::external_body] fn foreach_init(xs: &mut State) -> Xresult { unimplemented!() }
 #[verifier::external_body] fn foreach_next(xs: &mut State) -> Xresult { unimplemented!() }
 //@use compile.fns ::set_fmt_base
+#[verifier::external_body] fn update_fmt_prefix(xs: &mut State) -> Xresult { unimplemented!() }
+//@use compile.fns ::set_fmt_prefix
+#[verifier::external_body] fn update_fmt_tags(xs: &mut State) -> Xresult { unimplemented!() }
+//@use compile.fns ::set_fmt_tags
+#[verifier::external_body] fn update_fmt_upcase(xs: &mut State) -> Xresult { unimplemented!() }
+//@use compile.fns ::set_fmt_upcase
 //@use compile.fns ::core_word_foreach
 // include / require
 pub uninterp spec fn sources_has_name(s: Seq<(Xstr, Xstr)>, name: Xstr) -> bool;
